@@ -426,6 +426,10 @@ class Respondent(httping.Parsent):
             if status != httping.CONTINUE:  # 100 continue (with request or ignore)
                 break
 
+            # need new generator for start line of response after 100 continue
+            lineParser = httping.parseLine(raw=self.msg, eols=(CRLF, LF),
+                                           kind="status line")
+
             leaderParser = httping.parseLeader(raw=self.msg,
                                             eols=(CRLF, LF),
                                             kind="continue header line")
